@@ -404,6 +404,15 @@ func ruleIntegralVariants(w *World, r *RuleResult) {
 			return false
 		}
 		cs := w.callsTo(f, spec.op)
+		// … or the shared kernel called directly: c.add(d, x, y, subtract) with the matching constant
+		for _, ac := range w.callsTo(f, "(*Context).add") {
+			a := ac.Common().Args
+			if len(a) == 5 {
+				if k, isK := a[4].(*ssa.Const); isK && k.Value != nil && (k.Value.String() == "true") == (spec.op == "(*Context).Sub") {
+					cs = append(cs, ac)
+				}
+			}
+		}
 		ok := false
 		why := "no call of " + spec.op
 		for _, c := range cs {
